@@ -199,8 +199,14 @@ int vnacal_make_correlated_parameter(vnacal_t *vcp, int other,
 		    frequency_vector_copy != NULL ?
 		    frequency_vector_copy : vpmrp_end->vpmr_frequency_vector,
 		    sigma_vector_copy, spline_vector) == -1) {
-	    _vnacal_error(vcp, VNAERR_SYSTEM,
-		    "malloc: %s", strerror(errno));
+	    if (errno == EINVAL) {
+		_vnacal_error(vcp, VNAERR_USAGE,
+			"vnacal_make_correlated_parameter: "
+			"frequencies must be ascending");
+	    } else {
+		_vnacal_error(vcp, VNAERR_SYSTEM,
+			"malloc: %s", strerror(errno));
+	    }
 	    goto error;
 	}
     }
